@@ -66,30 +66,31 @@ Proof.
 Qed.
 
 (* the first loop, whatever its body is written like: nw, pr, ai are the locals that hold new_parameter_descs, params, any_info *)
-Lemma for_enum_rt : forall E run i k v nw pr ai ms,
+Lemma for_enum_rt : forall E run i k v nw pr ai ms (Inv : nat -> (var -> val) -> Prop),
   (forall loc n name pty acc P a,
-     loc nw = VList (map val_of_pdesc acc) -> loc pr = VDict (enc P) -> loc ai = VBool a ->
+     Inv n loc -> loc nw = VList (map val_of_pdesc acc) -> loc pr = VDict (enc P) -> loc ai = VBool a ->
      exists loc1,
        (run (setv (setv (setv loc i (VInt n)) k (VName name)) v (val_of_ptype pty)) ms = RNormal loc1 ms \/
         run (setv (setv (setv loc i (VInt n)) k (VName name)) v (val_of_ptype pty)) ms = RContinue loc1 ms) /\
+       Inv (S n) loc1 /\
        loc1 nw = VList (map val_of_pdesc (acc ++ opt_list (fst (fst (rt_step E n name pty P a))))) /\
        loc1 pr = VDict (enc (snd (fst (rt_step E n name pty P a)))) /\
        loc1 ai = VBool (snd (rt_step E n name pty P a))) ->
   forall types n loc acc P a,
-    loc nw = VList (map val_of_pdesc acc) -> loc pr = VDict (enc P) -> loc ai = VBool a ->
+    Inv n loc -> loc nw = VList (map val_of_pdesc acc) -> loc pr = VDict (enc P) -> loc ai = VBool a ->
     exists loc',
       for_enum run i k v n (items types) loc ms = RNormal loc' ms /\
       loc' nw = VList (map val_of_pdesc (acc ++ fst (fst (rt_loop E n types P a)))) /\
       loc' pr = VDict (enc (snd (fst (rt_loop E n types P a)))) /\
       loc' ai = VBool (snd (rt_loop E n types P a)).
 Proof.
-  intros E run i k v nw pr ai ms Hstep.
-  induction types as [|[name pty] rest IH]; intros n loc acc P a Hnw Hpr Hai.
+  intros E run i k v nw pr ai ms Inv Hstep.
+  induction types as [|[name pty] rest IH]; intros n loc acc P a HI Hnw Hpr Hai.
   - exists loc. cbn. rewrite app_nil_r. auto.
-  - destruct (Hstep loc n name pty acc P a Hnw Hpr Hai) as (loc1 & Hrun & H1 & H2 & H3).
+  - destruct (Hstep loc n name pty acc P a HI Hnw Hpr Hai) as (loc1 & Hrun & HI1 & H1 & H2 & H3).
     rewrite rt_loop_step.
     destruct (rt_step E n name pty P a) as [[o P'] a'] eqn:Hs. cbn [fst snd] in H1, H2, H3.
-    destruct (IH (S n) loc1 _ _ _ H1 H2 H3) as (loc' & Hr & G1 & G2 & G3).
+    destruct (IH (S n) loc1 _ _ _ HI1 H1 H2 H3) as (loc' & Hr & G1 & G2 & G3).
     destruct (rt_loop E (S n) rest P' a') as [[new lft] ai'] eqn:Hl. cbn [fst snd] in *.
     exists loc'. split; [|rewrite app_assoc; auto].
     change (items ((name, pty) :: rest)) with ((VName name, val_of_ptype pty) :: items rest).
@@ -122,7 +123,48 @@ Proof.
     + rewrite G2. cbn [existsb]. rewrite orb_assoc. reflexivity.
 Qed.
 
+(* next((d for d in reversed(l) if c), None) and any(c for d in l), whatever c is written like: it only has to decide g *)
+Lemma find_first_map : forall E i f loc st x c g ds,
+  (forall p, evalc E i f (setv loc x (val_of_pdesc p)) st c = Some (g p)) ->
+  find_first E i f loc st x c (map val_of_pdesc ds) = Some (vopt (find g ds)).
+Proof.
+  intros E i f loc st x c g ds H. induction ds as [|p ds IH]; [reflexivity|].
+  cbn [map find_first find]. rewrite H. destruct (g p); [reflexivity|exact IH].
+Qed.
+
+Lemma any_in_map : forall E i f loc st x c g ds,
+  (forall p, evalc E i f (setv loc x (val_of_pdesc p)) st c = Some (g p)) ->
+  any_in E i f loc st x c (map val_of_pdesc ds) = Some (existsb g ds).
+Proof.
+  intros E i f loc st x c g ds H. induction ds as [|p ds IH]; [reflexivity|].
+  cbn [map any_in existsb]. rewrite H. destruct (g p); [reflexivity|exact IH].
+Qed.
+
+Lemma find_app : forall {X} (g : X -> bool) l1 l2,
+  find g (l1 ++ l2) = match find g l1 with Some p => Some p | None => find g l2 end.
+Proof. intros X g l1 l2. induction l1 as [|a l1 IH]; [reflexivity|]. cbn. destruct (g a); [reflexivity|exact IH]. Qed.
+
+(* the first match from the end is the last match from the start *)
+Lemma find_rev_fold : forall {X} (g : X -> bool) ds,
+  find g (rev ds) = fold_left (fun acc p => if g p then Some p else acc) ds None.
+Proof.
+  intros X g ds.
+  assert (H : forall ds acc, fold_left (fun acc p => if g p then Some p else acc) ds acc =
+                             match find g (rev ds) with Some p => Some p | None => acc end).
+  { induction ds0 as [|a ds0 IH]; intro acc; [reflexivity|].
+    cbn [fold_left rev]. rewrite IH, find_app. destruct (find g (rev ds0)); [reflexivity|].
+    cbn. destruct (g a); reflexivity. }
+  rewrite H. destruct (find g (rev ds)); reflexivity.
+Qed.
+
+Lemma truthy_pdesc : forall p, truthy (val_of_pdesc p) = true.
+Proof. reflexivity. Qed.
+Lemma is_none_pdesc : forall p, is_none (val_of_pdesc p) = false.
+Proof. reflexivity. Qed.
+
 Local Arguments text_eqb : simpl never.
+Local Arguments find_first : simpl never.
+Local Arguments any_in : simpl never.
 Local Arguments for_loop : simpl never.
 Local Arguments for_enum : simpl never.
 Local Arguments rend : simpl never.
@@ -163,14 +205,26 @@ Ltac step_split :=
   match goal with
   | |- context [Nat.eqb ?n 0] => is_var n; destruct n
   | |- context [e_obj ?E] => destruct (e_obj E) as [[]| | |]
-  | |- context [text_eqb ?a ?b] => destruct (text_eqb a b)
+  | |- context [text_eqb ?a ?b] => destruct (text_eqb a b) eqn:?
   | |- context [if ?a then _ else _] => is_var a; destruct a
   | |- context [pn_star ?x] => destruct (pn_star x) eqn:?
   | |- context [cls_eqb (if pd_kw ?p then _ else _) _] => destruct (pd_kw p) eqn:?
   end.
 
+Ltac is_true_val v := match v with VBool true => idtac end.
+
+(* what is known about the locals *)
+Ltac use_locs :=
+  repeat match goal with
+         | H : ?loc ?n = _ |- context [?loc ?n] => is_var loc; rewrite H
+         end.
+
 Ltac step_norm H1 H2 H3 :=
-  cbn; unfold val_of_ptype, val_of_pdesc, strip_first, vopt, t_self, t_cls, is_kw_name; cbn; rewrite ?H1, ?H2, ?H3; cbn.
+  cbn; unfold val_of_ptype, val_of_pdesc, strip_first, vopt, t_self, t_cls, is_kw_name; cbn; use_locs; cbn.
+
+(* a case in which one name is equal to two different literals *)
+Ltac two_names :=
+  exfalso; repeat match goal with H : text_eqb _ _ = true |- _ => apply text_eqb_eq in H end; congruence.
 
 (* one round of a loop body: run it on the general state of the loop, compare with the step of the model;
    fails when the locals were guessed wrong (with_var then tries the next candidate) *)
@@ -178,39 +232,50 @@ Ltac step_tac H1 H2 H3 :=
   try match goal with |- context [val_of_ptype ?pty] => is_var pty; destruct pty as [[? ?]|] end;
   step_norm H1 H2 H3; repeat (step_split; step_norm H1 H2 H3);
   eexists; (split; [first [left; reflexivity | right; reflexivity] | ]);
-  step_norm H1 H2 H3; rewrite ?map_app, ?app_nil_r, ?orb_true_r, ?orb_false_r; step_norm H1 H2 H3; repeat split; reflexivity.
+  step_norm H1 H2 H3; rewrite ?map_app, ?app_nil_r, ?orb_true_r, ?orb_false_r; step_norm H1 H2 H3; repeat split; first [reflexivity | two_names].
 
-(* for index, (name, param_type) in enumerate(self.types.items()): ... *)
+(* for index, (name, param_type) in enumerate(self.types.items()): ...
+   Inv: what else the body relies on from one round to the next -- nothing, or a local fl that is True in the first round only *)
+Ltac run_enum_inv E nw pr ai Inv :=
+  match goal with
+  | |- context [for_enum ?run ?i ?k ?v ?n (items ?types) ?loc ?ms] =>
+      let Hs := fresh "Hs" in
+      assert (Hs : forall lc n0 name pty acc P0 a0,
+                Inv n0 lc -> lc nw = VList (map val_of_pdesc acc) -> lc pr = VDict (enc P0) -> lc ai = VBool a0 ->
+                exists loc1,
+                  (run (setv (setv (setv lc i (VInt n0)) k (VName name)) v (val_of_ptype pty)) ms = RNormal loc1 ms \/
+                   run (setv (setv (setv lc i (VInt n0)) k (VName name)) v (val_of_ptype pty)) ms = RContinue loc1 ms) /\
+                  Inv (S n0) loc1 /\
+                  loc1 nw = VList (map val_of_pdesc (acc ++ opt_list (fst (fst (rt_step E n0 name pty P0 a0))))) /\
+                  loc1 pr = VDict (enc (snd (fst (rt_step E n0 name pty P0 a0)))) /\
+                  loc1 ai = VBool (snd (rt_step E n0 name pty P0 a0)));
+      [ let HI := fresh "HI" in let H1 := fresh "Hnw" in let H2 := fresh "Hpr" in let H3 := fresh "Hai" in
+        let p := fresh "p" in let P' := fresh "P'" in
+        intros lc n0 name pty acc P0 a0 HI H1 H2 H3; cbn beta in HI; cbn; use_locs; cbn; rewrite ?dict_pop_enc; unfold rt_step;
+        destruct (dict_pop (pn_text name) P0) as [[p P']|]; step_tac H1 H2 H3
+      | let Hx := fresh "Hx" in
+        assert (Hx : Inv n loc) by (cbn; first [exact I | reflexivity]);
+        pose proof (for_enum_rt E run i k v nw pr ai ms Inv Hs types n loc [] _ _ Hx eq_refl eq_refl eq_refl) as Hx'; clear Hs Hx;
+        match type of Hx' with
+        | context [rt_loop ?E' ?n' ?ty ?P' ?a'] =>
+          let new := fresh "new" in let lft := fresh "lft" in let ai' := fresh "ai'" in
+          revert Hx'; destruct (rt_loop E' n' ty P' a') as [[new lft] ai']
+        end;
+        cbn [fst snd app];
+        let loc' := fresh "loc'" in let Hr := fresh "Hr" in
+        let H1 := fresh "Hnw" in let H2 := fresh "Hpr" in let H3 := fresh "Hai" in
+        intros (loc' & Hr & H1 & H2 & H3); rewrite Hr; clear Hr ]
+  end.
+
 Ltac run_enum E :=
   match goal with
   | |- context [for_enum ?run ?i ?k ?v ?n (items ?types) ?loc ?ms] =>
     with_var loc is_empty_list ltac:(fun nw =>
     with_var loc is_dict ltac:(fun pr =>
     with_var loc is_bool ltac:(fun ai =>
-      let Hs := fresh "Hs" in
-      assert (Hs : forall lc n0 name pty acc P0 a0,
-                lc nw = VList (map val_of_pdesc acc) -> lc pr = VDict (enc P0) -> lc ai = VBool a0 ->
-                exists loc1,
-                  (run (setv (setv (setv lc i (VInt n0)) k (VName name)) v (val_of_ptype pty)) ms = RNormal loc1 ms \/
-                   run (setv (setv (setv lc i (VInt n0)) k (VName name)) v (val_of_ptype pty)) ms = RContinue loc1 ms) /\
-                  loc1 nw = VList (map val_of_pdesc (acc ++ opt_list (fst (fst (rt_step E n0 name pty P0 a0))))) /\
-                  loc1 pr = VDict (enc (snd (fst (rt_step E n0 name pty P0 a0)))) /\
-                  loc1 ai = VBool (snd (rt_step E n0 name pty P0 a0)));
-      [ let H1 := fresh "Hnw" in let H2 := fresh "Hpr" in let H3 := fresh "Hai" in
-        let p := fresh "p" in let P' := fresh "P'" in
-        intros lc n0 name pty acc P0 a0 H1 H2 H3; cbn; rewrite ?H1, ?H2, ?H3; cbn; rewrite dict_pop_enc; unfold rt_step;
-        destruct (dict_pop (pn_text name) P0) as [[p P']|]; step_tac H1 H2 H3
-      | let Hx := fresh "Hx" in
-        pose proof (for_enum_rt E run i k v nw pr ai ms Hs types n loc [] _ _ eq_refl eq_refl eq_refl) as Hx; clear Hs;
-        match type of Hx with
-        | context [rt_loop ?E' ?n' ?ty ?P' ?a'] =>
-          let new := fresh "new" in let lft := fresh "lft" in let ai' := fresh "ai'" in
-          revert Hx; destruct (rt_loop E' n' ty P' a') as [[new lft] ai']
-        end;
-        cbn [fst snd app];
-        let loc' := fresh "loc'" in let Hr := fresh "Hr" in
-        let H1 := fresh "Hnw" in let H2 := fresh "Hpr" in let H3 := fresh "Hai" in
-        intros (loc' & Hr & H1 & H2 & H3); rewrite Hr; clear Hr ])))
+      first [ run_enum_inv E nw pr ai (fun (_ : nat) (_ : var -> val) => True)
+            | with_var loc is_true_val ltac:(fun fl =>
+                run_enum_inv E nw pr ai (fun (m : nat) (lc : var -> val) => lc fl = VBool (Nat.eqb m 0))) ])))
   end.
 
 (* for p in self.parameter_descs: ... *)
@@ -233,11 +298,30 @@ Ltac run_kw :=
         clear Hs; rewrite Hr; clear Hr ]))
   end.
 
-(* what is known about the locals after a loop *)
-Ltac use_locs :=
+(* x = next((d for d in reversed(descs) if <d is named by a KeywordArgument>), None);  x = any(<d is another keyword> for d in descs) *)
+Ltac decide_pointwise :=
+  let p := fresh "p" in
+  intro p; cbn; unfold val_of_pdesc, is_kw_name; cbn;
   repeat match goal with
-         | H : ?loc ?n = _ |- context [?loc ?n] => is_var loc; rewrite H
-         end.
+         | |- context [pn_star ?x] => destruct (pn_star x)
+         | |- context [pd_kw ?q] => destruct (pd_kw q)
+         end; reflexivity.
+
+Ltac run_find :=
+  match goal with
+  | |- context [find_first ?E ?i ?f ?loc ?st ?x ?c (rev (map val_of_pdesc ?ds))] =>
+    let H := fresh "Hg" in
+    assert (H : forall p, evalc E i f (setv loc x (val_of_pdesc p)) st c = Some (is_kw_name p)) by decide_pointwise;
+    rewrite <- (map_rev val_of_pdesc ds), (find_first_map E i f loc st x c is_kw_name (rev ds) H), find_rev_fold; clear H
+  end.
+
+Ltac run_any :=
+  match goal with
+  | |- context [any_in ?E ?i ?f ?loc ?st ?x ?c (map val_of_pdesc ?ds)] =>
+    let H := fresh "Hg" in
+    assert (H : forall p, evalc E i f (setv loc x (val_of_pdesc p)) st c = Some (negb (is_kw_name p) && pd_kw p)) by decide_pointwise;
+    rewrite (any_in_map E i f loc st x c (fun p => negb (is_kw_name p) && pd_kw p) ds H); clear H
+  end.
 
 Ltac rt_atom :=
   match goal with
@@ -248,7 +332,7 @@ Ltac rt_atom :=
   end.
 
 Ltac rt_norm :=
-  norm; refold; use_locs; unfold vopt; cbn; rewrite ?map_snd_enc, <- ?map_app, ?pdescs_of_map, ?pdesc_of_val; norm.
+  norm; refold; use_locs; unfold vopt; cbn; rewrite ?map_snd_enc, <- ?map_app, ?pdescs_of_map, ?pdesc_of_val, ?truthy_pdesc, ?is_none_pdesc; norm.
 
 Theorem code_resolve_is_model : forall E st,
   resolve_ir fields_code E (irstate st) = Some (irstate (resolve_types E st)).
@@ -260,8 +344,9 @@ Proof.
   change (match P with [] => false | _ :: _ => true end) with (nonempty P).
   destruct (nonempty P) eqn:HP; rt_norm.
   all: run_enum E; rt_norm.
-  all: repeat first [ run_kw; rt_norm | rt_atom; rt_norm ].
+  all: repeat first [ run_kw; rt_norm | run_find; rt_norm | run_any; rt_norm | rt_atom; rt_norm ].
   all: try congruence.
+  all: rt_norm; rt_norm.
   all: unfold val_of_pdesc; cbn; try reflexivity.
   all: repeat match goal with |- context [pd_kw ?p] => destruct (pd_kw p) end; reflexivity.
 Qed.
